@@ -5,6 +5,10 @@ import json, os, subprocess
 ROOT = os.path.dirname(os.path.dirname(os.path.abspath(__file__)))
 
 CLAIMED = {
+ "C03": ("4 (C03)", "seeded interleaved multi-aircraft histories (adversarially close addresses, nine formats, random payloads, zero-address frames, duplicates, reordering); invariants after every delivered read against an independent CRC-24/address reference: only the addressed row changes, it exists afterwards, no row for address 0, key == address, no unexplained rows"),
+ "C12": ("4 (C12)", "seeded schedules of talk spurts and silences on and around delete_after under a discrete-event clock, every format as the refreshing frame, -U/-f, file and TCP with reconnects; oracle: reference expiry model after every event (live rows present, last-contact stamp == processing time of latest accepted frame, stale rows gone within 12 accepted frames, re-created rows equal first-frame rows, no phantom rows)"),
+ "C16": ("4 (C16)", "seeded mixed streams (all formats, unsupported DFs, zero addresses, parity failures, junk) under -f subsets, -c on/off, refresh driven by the simulated clock, stdout captured through the seam; oracle: reference per-DF counter == printed counter line in ascending order, filtered/rejected frames change neither table nor output, passing frames are applied, no counter line without -c"),
+ "C18": ("4 (C18)", "seeded TCP fault sequences over {refuse, accept+close, accept+frames+close, accept+partial line+reset/timeout, accept+junk, EINTR} followed by a healthy connection, with simulated 5 s retry pauses; oracle: reader never returns/panics, whole script is read and healthy frames applied, 3..8 s pause after a refused attempt, rows heard within delete_after survive unchanged, rejected partial lines change nothing"),
  "C04": ("4 (C04)", "seeded histories with bit-flip injection on in-flight DF11/17/18 squitters (all 1-bit, all 2-bit, all (start,len<=24) bursts enumerated round-robin by run index, heavy random) at chosen history points; oracle: table bit-for-bit unchanged incl. time stamps and no counter/output effect whenever the reference CRC-24 syndrome demands rejection; IID-only DF11 must be applied"),
  "C13": ("4 (C13)", "seeded differential simulation: a junk-laden stream (file or TCP, arbitrary read boundaries) against its accepted subsequence replayed at identical simulated processing times; oracle: identical tables (all fields, time stamps included) after every accepted group and at the end; reader consumed the whole stream"),
  "C01": ("4 (C01)", "seeded hostile line histories x option vectors x feed faults (chunking, EINTR, resets, EOF mid-line, clock ticks and jumps) in two build profiles (overflow checks on / release-like); oracle: no panic, no wedge, file source returns Ok after EOF, sentinel frame after hostile input is applied"),
